@@ -102,3 +102,29 @@ class vtodo:
 
     def ensures(start, end, comp, result):
         return result == rfc4791_vtodo(start, end, comp)
+
+
+def rfc4791_vfreebusy(start, end, comp):
+    # RFC 4791 9.9, VFREEBUSY: DTSTART and DTEND present -> (start <= DTEND) AND (end > DTSTART);
+    # else some FREEBUSY period with (start < period-end) AND (end > period-start); else FALSE
+    if has(comp, "DTSTART") and has(comp, "DTEND"):
+        return start <= ts(comp, "DTEND") and end > ts(comp, "DTSTART")
+    if has(comp, "FREEBUSY"):
+        return any(start < p.end and end > p.start for p in periods_of(comp))
+    return False
+
+
+@contract("xandikos.icalendar.apply_time_range_vfreebusy",
+          params={"start": "int", "end": "int", "comp": "opaque:PropSource", "tzify": "opaque:Tzify"},
+          returns="bool", locals={"period": "opaque:Period"})
+class vfreebusy:
+    def requires(start, end):
+        return start < end
+
+    def ensures(start, end, comp, result):
+        return result == rfc4791_vfreebusy(start, end, comp)
+
+    def inv_0(start, end, comp, _i, _seq):
+        return (_seq == (periods_of(comp) if has(comp, "FREEBUSY") else [])
+                and not (has(comp, "DTSTART") and has(comp, "DTEND"))
+                and not any(start < p.end and end > p.start for p in _seq[:_i]))
